@@ -34,9 +34,9 @@ func c15Scenarios() []c15Scenario {
 	main := "include a.journal\ninclude b.journal\n\n2001-01-01 market\n    expenses:veg  1 EUR\n    assets:wallet\n\n2001-01-05 shop\n    \n"
 	reqs := func(doc string, typingLine int) []wire.Msg {
 		return []wire.Msg{
-			{Op: "completion", Doc: doc, Line: typingLine, Char: 4},                 // account, empty fragment
-			{Op: "completion", Doc: doc, Line: typingLine - 1, Char: 11},            // payee, empty fragment
-			{Op: "completion", Doc: doc, Line: typingLine - 1, Char: 12},            // payee, one letter
+			{Op: "completion", Doc: doc, Line: typingLine, Char: 4},      // account, empty fragment
+			{Op: "completion", Doc: doc, Line: typingLine - 1, Char: 11}, // payee, empty fragment
+			{Op: "completion", Doc: doc, Line: typingLine - 1, Char: 12}, // payee, one letter
 			{Op: "references", Doc: doc, Line: 4, Char: 8},
 			{Op: "symbols", Doc: doc},
 			{Op: "wsymbol", Text: ""},
